@@ -106,7 +106,13 @@ class Interp:
             if not isinstance(it, list):
                 raise Abort('loop iterable is not a literal range')
             for v in it:
-                self.env[st.target.id] = v
+                if isinstance(st.target, ast.Tuple):
+                    if not isinstance(v, (tuple, list)) or len(v) != len(st.target.elts) or not all(isinstance(x, ast.Name) for x in st.target.elts):
+                        raise Abort('loop target unpacking')
+                    for x, y in zip(st.target.elts, v):
+                        self.env[x.id] = y
+                else:
+                    self.env[st.target.id] = v
                 r = self.block(st.body)
                 if r == 'break':
                     break
@@ -178,8 +184,21 @@ class Interp:
             return e.value
         if isinstance(e, ast.Name):
             if e.id not in self.env:
+                # a module-level literal table / constant of the analysed function's module
+                mod = getattr(self.func, 'mod', None)
+                node = mod.assigns.get(e.id) if mod is not None else None
+                if node is not None:
+                    v = node.args[0] if isinstance(node, ast.Call) and norm(node.func).split('.')[-1] in ('array', 'asarray') and node.args else node
+                    try:
+                        val = ast.literal_eval(v)
+                    except Exception:
+                        raise Abort(f'module-level `{e.id}` is not a literal')
+                    self.env[e.id] = list(val) if isinstance(val, tuple) else val
+                    return self.env[e.id]
                 raise Abort(f'unknown name {e.id}')
             return self.env[e.id]
+        if isinstance(e, (ast.Tuple, ast.List)):
+            return [self.ev(x) for x in e.elts]
         if isinstance(e, ast.UnaryOp) and isinstance(e.op, ast.USub):
             return -self.ev(e.operand)
         if isinstance(e, ast.Call):
@@ -191,6 +210,18 @@ class Interp:
             if f == 'len':
                 v = self.ev(e.args[0])
                 return len(v)
+            if f == 'enumerate' and len(e.args) == 1:
+                v = self.ev(e.args[0])
+                if isinstance(v, list):
+                    return [(i, x) for i, x in enumerate(v)]
+            if f in ('zip',) and e.args:
+                vs = [self.ev(a) for a in e.args]
+                if all(isinstance(v, list) for v in vs):
+                    return [tuple(t) for t in zip(*vs)]
+            if f == 'reversed' and len(e.args) == 1:
+                v = self.ev(e.args[0])
+                if isinstance(v, list):
+                    return list(reversed(v))
             raise Abort('call ' + f)
         if isinstance(e, ast.Subscript):
             base = e.value
